@@ -311,6 +311,18 @@ pub fn run(ctx: &mut Ctx) {
                 texts.push((format!("invalid-char/U+{:04X}", bad.chars().next().unwrap() as u32), sp.text));
             }
         }
+        // `//` line comments (the lexer makes a comment token of them whatever the parser option says): after every line
+        // with LF and with CRLF, before the first lexeme, as the last line without a line end, two in a row
+        {
+            let lines = spell_with(lx, "", "\n", &|j, g| if j % 4 == 3 { "\n".to_string() } else if g == Glue::Blank { " ".into() } else { String::new() }).text;
+            texts.push(("line-comment/after-every-line".to_string(), lines.replace('\n', " // c \u{e9}\n")));
+            texts.push(("line-comment/after-every-line-crlf".to_string(), lines.replace('\n', " // c\r\n")));
+            texts.push(("line-comment/before-the-first-lexeme".to_string(), format!("// header\n{}", lines)));
+            texts.push(("line-comment/two-in-a-row".to_string(), format!("// one\n// two \u{1F600}\n{}", lines)));
+            texts.push(("line-comment/last-line-without-line-end".to_string(), format!("{}// end", lines)));
+            texts.push(("line-comment/holding-a-comment-opener".to_string(), lines.replacen('\n', " // (* not opened\n", 1)));
+            texts.push(("line-comment/empty".to_string(), lines.replace('\n', " //\n")));
+        }
         // characters that text-handling code likes to treat specially (byte-order mark, other line ends, invisible
         // and replacement characters, control characters), written with nothing around them: as the very first
         // character of the text, as the very last one, twice in a row, and in the gap after every third lexeme.
